@@ -1,11 +1,59 @@
 CFG = {
     "modules": ["Parsley.Props.C14"],
-    "theorems": [],
+    "theorems": [
+        "Parsley.C14.objstm_roundtrip", "Parsley.C14.objstm_accepted_wellformed", "Parsley.C14.objstm_never_panics",
+        "Parsley.C14.objstm_rejects_order", "Parsley.C14.objstm_rejects_short", "Parsley.C14.first_beyond_rejected",
+        "Parsley.C14.overrun_rejected", "Parsley.C14.defined_rejected", "Parsley.C14.repeated_rejected",
+        "Parsley.C14.offset_beyond_rejected", "Parsley.C14.defect17_witness",
+        "Parsley.ObjStm.metaLoop_good", "Parsley.ObjStm.streamLoop_good", "Parsley.ObjStm.streamLoop_complete",
+    ],
+    "partial": {
+        "(value at the declared offset)": "objstm_roundtrip is at full strength for the object-stream layer: 'the object located at offset o' is "
+            "what the object parser (optional white space/comments, then parse_pdf_obj; model of C02/C16) reads at o, with NO assumption on the bytes "
+            "between the end of one object and the next declared offset. That this reader returns the value that was spelled there is C02's "
+            "statement (spell_parse, still partial); here it is decided by the oracle on generated streams (the oracle knows the spelled values).",
+        "(header layouts)": "the header theorems quantify over all white-space layouts (any run of the six PDF white-space bytes); headers "
+            "containing comments are covered by the correspondence run only",
+        "(filters)": "the filter decoders are a parameter of the model (C06 owns them): the theorems hold for every decoder function; "
+            "the real FlateDecode path is exercised by the harness on generated zlib streams",
+    },
     "n": {"quick": 1500, "thorough": 60000},
     "exhaustive": {"quick": False, "thorough": True},
     "shrink": False,
-    "rule": "TODO",
-    "trusted_base": COMMON_TB + [],
-    "assumptions": [],
+    "rule": "corpus (defect #17 input, the unit-test fixtures, one case per rejection rule, huge numbers) + exhaustive small space: every content over "
+            "{1,2,blank,x} of length <= 4 (thorough: <= 5) x every offset pair (o0,o1) in [0,len+1]^2 under a 2-pair header (quick: every 3rd), judged "
+            "by a three-line digit reader + random streams: 1..6 members with values from the C02 generator spelled by the C02 encoder, ids incl. "
+            "2^32 and 2^63-1, three gap styles (contiguous as the unit tests / white space / arbitrary non-object bytes incl. unbalanced delimiters, "
+            "comments, random bytes, before the first and after the last member), leading white space inside a member, random header layouts (all six "
+            "white-space bytes, comments, padding and junk before /First), 5 dictionary spellings, predefined unrelated ids and same id under "
+            "generation 1, view cursor not at 0, 1/6 of them again through FlateDecode (stored-block zlib, junk before the cursor); per stream one "
+            "single-rule corruption: non-increasing offset, /N larger than the pairs present, /First >= |data|, next offset inside the previous "
+            "object, id predefined, id repeated, 14 dictionary defects, offset beyond the content / 2^32 / 2^63-1 / 2^63 / 2^64 / 10^30, id replaced "
+            "by a fresh one (must still extract), nesting bound below the deepest member, byte truncation/alteration and arbitrary header-number "
+            "replacement (correspondence + no panic). non-trivial = >= 2 members or a Flate case (rt), both offsets inside the content and distinct "
+            "(ex), >= 12 data bytes (rej/mut); distinct by case hash",
+    "trusted_base": COMMON_TB + [
+        "modelled, not verified: ParseBuffer views as byte lists with a view-relative cursor (C17), BTreeMap as a key-ordered association list",
+        "parameter of the model, not modelled here: the filter decoders (FlateDecode, ASCII85Decode, ASCIIHexDecode, DCTDecode) - C06",
+        "reused models of the token parsers and parse_pdf_obj (Model/Prim.lean, Model/Obj.lean; theorems of C15/C16)",
+        "the stream dictionary is handed to both sides as text and read by the crate's DictP / the model's dictionary parser",
+    ],
+    "assumptions": [
+        "buffers (the view's underlying vector, decoder outputs) are smaller than 2^63 bytes (Rust allocations are at most isize::MAX bytes)",
+        "the context's definitions map is an ordered map (BTreeMap invariant) and cur_depth <= max_depth",
+        "the model mirrors /repo with pending_fixes/C14-01 applied; against the unfixed tree the check reports the violation (defect #17)",
+    ],
 }
-LEVEL = {"design_ref": "DESIGN.md 3.C14", "technique": "TODO", "text": "TODO"}
+LEVEL = {
+    "design_ref": "DESIGN.md 3.C14",
+    "technique": "Lean 4 theorems (encoder round trip for the header, relational extraction semantics for the content, soundness + completeness "
+                 "+ fuel sufficiency of both loops) over an executable model of ObjStreamP + differential correspondence with the Rust parser",
+    "text": "Machine-checked proof, for all dictionaries, header layouts, contents, contexts and decoder functions, that the model of ObjStreamP::parse "
+            "(get_dict_info, filters, RestrictView/RestrictViewFrom, parse_metadata, parse_stream, register_obj) extracts from a well-formed stream exactly "
+            "the objects located at the declared offsets, in header order, under (id, 0), binding them in the context and changing nothing else, "
+            "whatever bytes lie between the objects; that everything it accepts is well formed (exactly /N pairs, increasing offsets inside the "
+            "content, no object past the next offset, fresh distinct ids, /First inside the data), hence the five rejections of the statement; and "
+            "that no panic site is reachable for any /N, /First or offset (set_cursor address arithmetic modelled on usize). The model is tied to the "
+            "real parser by a correspondence run on generated, corrupted and exhaustively enumerated small streams (members, spans, context lookups); "
+            "defect #17 (object read after the previous one instead of at its offset) is reproduced on the unfixed tree and repaired by C14-01.",
+}
